@@ -47,7 +47,7 @@ MANIFEST = dict(
                 "compared: the three-way class and, for accepted inputs, the complete system."),
     level_note=("Repaired variant: Model.parse_*_v Fix mirrors parse.rs with patches/000N-fix-btor2-*.diff applied; for it C18_no_crash_fix (no panic on ANY text over the "
                 "supported operators, both profiles) and C18_accepted_well_typed_fix (accepted => full sys_ok and closed) are proved; the driver constant code_variant "
-                "(ocaml/driver/c08.ml, shared by C08/C09/C18) selects Cur (shipped /repo) or Fix; patches/verify-btor2-series.sh checks the series in isolation. "
+                "(ocaml/driver/c08.ml, shared by C08/C09/C18) selects Cur (the reader before the series), Fix (= /repo) or Fix2 (= Fix + prepared patches/0009: uext/sext need a bit-vector operand; C18_no_crash_fix2, C18_accepted_well_typed_fix2); patches/verify-btor2-series.sh checks the series in isolation. "
                 "The robustness statement is FALSE of the code today: recorded as known findings (one per panic location) and as *_refuted theorems; "
                 "the theorems that hold are stated for inputs outside an explicit KnownClass."),
 )
